@@ -39,11 +39,22 @@ type pkey struct {
 }
 type skey struct{ c, s int }
 
+// what the scheduler tells a server to do with the request it holds
+const (
+	ansOK    = iota // answer every request of every list
+	ansFail         // end the attempt with an error the client does not retry (Internal)
+	ansBreak        // stream the first n responses, then end the attempt with a retriable error (Unavailable)
+)
+
+type answerCmd struct {
+	mode, n int
+}
+
 type pendBatch struct {
 	s       int
 	k       string
 	p, d, r []int
-	cmd     chan bool // true: answer, false: fail
+	cmd     chan answerCmd
 }
 
 const (
@@ -93,6 +104,7 @@ type world struct {
 	cancel context.CancelFunc
 
 	calls   []*callState
+	sent    map[skey]int // how often the request of call c reached the server of shard s
 	pend    map[pkey][]*pendBatch
 	streams map[skey]*srvStream
 	trace   []TLine
@@ -119,7 +131,7 @@ func newWorld(base string, cfg Cfg, linger time.Duration, seed int64) (*world, e
 	worldSeq++
 	id := worldSeq
 	worldSeqMu.Unlock()
-	w := &world{cfg: cfg, linger: linger, pend: map[pkey][]*pendBatch{}, streams: map[skey]*srvStream{},
+	w := &world{cfg: cfg, linger: linger, pend: map[pkey][]*pendBatch{}, streams: map[skey]*srvStream{}, sent: map[skey]int{},
 		tracing: true, rng: rand.New(rand.NewSource(seed)), stopTk: make(chan struct{})}
 	if w.cfg.Dead == nil {
 		w.cfg.Dead = []int{}
@@ -482,9 +494,14 @@ func (*fakeLeader) CloseSession(context.Context, *proto.CloseSessionRequest) (*p
 
 // register records the arrival of a request and returns the handle the scheduler answers through.
 func (w *world) register(s int, k string, p, d, r []int) *pendBatch {
-	pb := &pendBatch{s: s, k: k, p: p, d: d, r: r, cmd: make(chan bool, 1)}
+	pb := &pendBatch{s: s, k: k, p: p, d: d, r: r, cmd: make(chan answerCmd, 1)}
 	w.mu.Lock()
 	w.pend[pkey{s, k}] = append(w.pend[pkey{s, k}], pb)
+	for _, l := range [][]int{p, d, r} {
+		for _, c := range l {
+			w.sent[skey{c, s}]++
+		}
+	}
 	w.logLocked(TLine{A: "Batch", S: s, K: k, P: p, D: d, R: r})
 	w.mu.Unlock()
 	return pb
@@ -533,14 +550,18 @@ func (f *fakeLeader) WriteStream(stream proto.OxiaClient_WriteStreamServer) erro
 			r = append(r, callOfKey(x.StartInclusive))
 		}
 		pb := w.register(s, "w", p, d, r)
-		var ok bool
+		var cmd answerCmd
 		select {
-		case ok = <-pb.cmd:
+		case cmd = <-pb.cmd:
 		case <-stream.Context().Done():
 			return nil
 		}
-		if !ok {
+		switch cmd.mode {
+		case ansFail:
 			return status.Error(codes.Internal, "injected write failure")
+		case ansBreak:
+			// the request was received (a real leader may well have applied it); the response is lost
+			return status.Error(codes.Unavailable, "injected: connection to the leader lost")
 		}
 		// a correct server: response i of every list answers request i of that list
 		resp := &proto.WriteResponse{}
@@ -572,12 +593,13 @@ func (f *fakeLeader) Read(req *proto.ReadRequest, stream proto.OxiaClient_ReadSe
 		p = append(p, callOfKey(g.Key))
 	}
 	pb := w.register(s, "r", p, nil, nil)
-	var ok bool
+	var cmd answerCmd
 	select {
-	case ok = <-pb.cmd:
+	case cmd = <-pb.cmd:
 	case <-stream.Context().Done():
 		return nil
 	}
+	ok := cmd.mode == ansOK
 	var gets []*proto.GetResponse
 	for _, c := range p {
 		t, _ := w.tmplOf(c)
@@ -598,6 +620,21 @@ func (f *fakeLeader) Read(req *proto.ReadRequest, stream proto.OxiaClient_ReadSe
 	split := len(gets)
 	if len(gets) >= 2 {
 		split = 1 + (p[0] % len(gets))
+	}
+	if cmd.mode == ansBreak {
+		// the first n responses are streamed (in one or two chunks), then the stream breaks with an
+		// error the client retries (leader change in the middle of the stream)
+		n := cmd.n
+		if n > len(gets) {
+			n = len(gets)
+		}
+		if n >= 2 && p[0]%2 == 1 {
+			_ = stream.Send(&proto.ReadResponse{Gets: gets[:1]})
+			_ = stream.Send(&proto.ReadResponse{Gets: gets[1:n]})
+		} else if n >= 1 {
+			_ = stream.Send(&proto.ReadResponse{Gets: gets[:n]})
+		}
+		return status.Error(codes.Unavailable, "injected: leader changed")
 	}
 	if !ok {
 		// fail the request; sometimes after a first part has already been delivered
@@ -680,8 +717,9 @@ func (f *fakeLeader) RangeScan(req *proto.RangeScanRequest, stream proto.OxiaCli
 // scheduler primitives (what the replayer / driver does to the servers)
 // ---------------------------------------------------------------------------------------------
 
-// answer makes the server of (s,k) answer (ok) or fail the request it holds. Caller must not hold mu.
-func (w *world) answer(s int, k string, ok bool) bool {
+// answer makes the server of (s,k) answer (ansOK), fail (ansFail) or break after n responses (ansBreak)
+// the request it holds. Caller must not hold mu.
+func (w *world) answer(s int, k string, mode, n int) bool {
 	w.mu.Lock()
 	l := w.pend[pkey{s, k}]
 	if len(l) == 0 {
@@ -690,13 +728,13 @@ func (w *world) answer(s int, k string, ok bool) bool {
 	}
 	pb := l[0]
 	w.pend[pkey{s, k}] = l[1:]
-	a := "Respond"
-	if !ok {
-		a = "Fail"
+	a := [...]string{"Respond", "Fail", "Break"}[mode]
+	if mode != ansBreak || k == "w" {
+		n = 0
 	}
-	w.logLocked(TLine{A: a, S: s, K: k})
+	w.logLocked(TLine{A: a, S: s, K: k, N: n})
 	w.mu.Unlock()
-	pb.cmd <- ok
+	pb.cmd <- answerCmd{mode, n}
 	return true
 }
 
@@ -768,7 +806,7 @@ func (w *world) drain(d time.Duration) bool {
 		all := w.allDoneLocked()
 		w.mu.Unlock()
 		for _, k := range todo {
-			w.answer(k.s, k.k, true)
+			w.answer(k.s, k.k, ansOK, 0)
 		}
 		for _, st := range sts {
 			w.end(st, "eof")
